@@ -108,7 +108,7 @@ func c02PrecField(c *Ctx, r *Report, a *Anchors) {
 		}
 	}
 	facts := func(b *ssa.BasicBlock) (isRes, notRes, anySet, anyNil bool) {
-		for _, g := range blockGuards(b) {
+		for _, g := range pathGuards(b) {
 			if f, ok := assertFactOf(g); ok && derefNamed(f.t) == "Resolver" && stripIface(f.x) == ssa.Value(objP) {
 				if f.holds {
 					isRes = true
